@@ -145,6 +145,47 @@ fn err_kind(e: &StateError) -> &'static str {
     }
 }
 
+// ----------------------------------------------- well-formedness (WF) --
+
+/// the structural invariant the theorems assume of a state (`WF` in Sozu/State/Lemmas.lean,
+/// except "certificate names resolved", which is not an invariant of the code): checked on
+/// every real state the harness reaches
+fn wf_violation(s: &ConfigState) -> Option<String> {
+    use std::net::SocketAddr;
+    for (k, c) in &s.clusters {
+        if &c.cluster_id != k { return Some(format!("cluster {k} holds id {}", c.cluster_id)); }
+        if let Some(h) = &c.health_check {
+            if sozu_command_lib::config::validate_health_check_config(h).is_err() { return Some(format!("cluster {k}: invalid stored health check")); }
+        }
+    }
+    for (k, l) in &s.backends {
+        if l.windows(2).any(|w| w[0] > w[1]) { return Some(format!("backends of {k} not sorted")); }
+        if l.iter().any(|b| &b.cluster_id != k) { return Some(format!("backends of {k}: foreign cluster id")); }
+        let ids: BTreeSet<(&String, SocketAddr)> = l.iter().map(|b| (&b.backend_id, b.address)).collect();
+        if ids.len() != l.len() { return Some(format!("backends of {k}: duplicate (id, address)")); }
+    }
+    for (k, l) in &s.http_listeners { if SocketAddr::from(l.address) != *k { return Some(format!("http listener {k} key/address")); } }
+    for (k, l) in &s.https_listeners { if SocketAddr::from(l.address) != *k { return Some(format!("https listener {k} key/address")); } }
+    for (k, l) in &s.tcp_listeners { if SocketAddr::from(l.address) != *k { return Some(format!("tcp listener {k} key/address")); } }
+    for (k, l) in &s.udp_listeners { if SocketAddr::from(l.address) != *k { return Some(format!("udp listener {k} key/address")); } }
+    for (k, f) in s.http_fronts.iter().chain(s.https_fronts.iter()) {
+        let r: sozu_command_lib::proto::command::RequestHttpFrontend = f.clone().into();
+        if &r.to_string() != k || f.tags.is_none() { return Some(format!("front {k}: key/value")); }
+    }
+    for (k, l) in &s.tcp_fronts {
+        if l.iter().any(|f| &f.cluster_id != k) || l.iter().collect::<BTreeSet<_>>().len() != l.len() { return Some(format!("tcp fronts of {k}")); }
+    }
+    for (k, l) in &s.udp_fronts {
+        if l.iter().any(|f| &f.cluster_id != k) || l.iter().collect::<BTreeSet<_>>().len() != l.len() { return Some(format!("udp fronts of {k}")); }
+    }
+    for (k, m) in &s.certificates {
+        for (fp, c) in m {
+            if c.fingerprint().ok().as_ref() != Some(fp) { return Some(format!("certificate {k}/{fp}: key is not the fingerprint")); }
+        }
+    }
+    None
+}
+
 // ----------------------------------------------------------- C07 oracles --
 
 fn c07_oracle(r: &mut ImplRun, verb: &str, req: &Request, before: &ConfigState, after: &ConfigState, res: &Result<(), StateError>) {
@@ -705,10 +746,10 @@ impl Area for StateArea {
     }
     fn cases(&self, thorough: bool) -> u64 {
         match (self.prop.as_str(), thorough) {
-            ("C05", false) => 1500,
-            ("C05", true) => 20000,
-            (_, false) => 3000,
-            (_, true) => 40000,
+            ("C05", false) => 4000,
+            ("C05", true) => 60000,
+            (_, false) => 6000,
+            (_, true) => 100000,
         }
     }
     fn corpus(&self) -> Vec<Vec<String>> {
@@ -902,6 +943,9 @@ impl Area for StateArea {
                             }
                             r.tags.push(format!("err:{verb}:{}", err_kind(e)));
                         }
+                    }
+                    if let Some(why) = wf_violation(&cur) {
+                        r.oracle.push(("state-not-well-formed".into(), why));
                     }
                     r.out.push(format!("{} {}", if res.is_ok() { "ok" } else { "err" }, dump(p, &cur)));
                 }
